@@ -326,6 +326,7 @@ def run(chk):
     comptime_call_shape(chk)
     expression_builder_keeps_operators(chk)
     expression_statements_kept(chk)
+    with_modifier_keywords(chk)
     comprehension_clauses(chk)
     chk.use_engine(e)
 
@@ -465,6 +466,70 @@ shutil.rmtree(d, ignore_errors=True)
 bad = [k for k in ("bare_undefined", "bare_maybe_undefined", "bare_after_move") if res[k] == "accepted"] + ([] if res["bare_defined"] == "accepted" else ["bare_defined"])
 print(json.dumps({"violates": bool(bad), "observed": res, "required": "an expression statement consisting of a name is checked like any other read: undefined / possibly undefined / already moved names are rejected"}))
 '''
+
+REPLAY_WITH_KW = r'''
+import tempfile, importlib.util, os, sys, shutil
+import guppylang
+guppylang.enable_experimental_features()
+from guppylang_internals.error import GuppyError
+src = """from guppylang import guppy
+from guppylang.std.quantum import qubit, h, x
+dagger = object(); control = object(); power = object()
+@guppy
+def f_dagger(q: qubit) -> None:
+    with dagger(foo=1):
+        h(q)
+@guppy
+def f_control(q: qubit, c: qubit) -> None:
+    with control(c, foo=1):
+        x(q)
+@guppy
+def f_power(q: qubit) -> None:
+    with power(2, foo=1):
+        x(q)
+"""
+d = tempfile.mkdtemp(dir=os.environ.get("TMPDIR", "/var/tmp")); fn = os.path.join(d, "replay_c32w.py"); open(fn, "w").write(src)
+spec = importlib.util.spec_from_file_location("replay_c32w", fn); m = importlib.util.module_from_spec(spec); sys.modules["replay_c32w"] = m
+spec.loader.exec_module(m)
+res = {}
+for name in ("f_dagger", "f_control", "f_power"):
+    try:
+        getattr(m, name).check(); res[name] = "accepted"
+    except GuppyError as ex:
+        res[name] = "rejected:" + type(ex.error).__name__
+shutil.rmtree(d, ignore_errors=True)
+print(json.dumps({"violates": any(v == "accepted" for v in res.values()), "observed": res, "required": "a keyword argument of a with-block modifier is rejected, not dropped"}))
+'''
+
+
+def with_modifier_keywords(chk):
+    """CFGBuilder._handle_withitem (cfg/builder.py): the modifier of a `with` block is built from the
+    POSITIONAL arguments of dagger(...) / control(...) / power(...); a keyword argument therefore has to be
+    rejected (it would otherwise vanish), and so has an `as` clause."""
+    from . import C03 as C3
+    from .common import ast_from_source
+    BM = "guppylang_internals.cfg.builder"
+    e = C3.cfg_engine(chk)
+    e.func_info(BM, "CFGBuilder._handle_withitem")
+    e.models["guppylang_internals.checker.errors.generic:UnsupportedError"] = lambda it, a, k: SObj(ClassVal("Diag"), {"kind": "UnsupportedError", "args": tuple(a)})
+    e.models["guppylang_internals.span:to_span"] = lambda it, a, k: SObj(ClassVal("SpanStub", builtin=True), {"start": ("start", a[0]), "end": ("end", a[0])})
+    CASES = [("dagger(foo=1)", True), ("control(c, foo=1)", True), ("power(2, foo=1)", True), ("control(c, d, k=e)", True), ("power(n, **kw)", True),
+             ("dagger", False), ("dagger()", False), ("control(c)", False), ("control(c, d)", False), ("power(2)", False)]
+    for src, must in CASES:
+        def t(it, src=src):
+            m = e.module(BM)
+            CB = it.lookup_global(m, "CFGBuilder")
+            w = ast_from_source(it, f"with {src}:\n    pass\n").fields["body"][0]
+            return it.call_method(it.call(CB, [], {}), "_handle_withitem", [w.fields["items"][0]])
+
+        def post(p, must=must):
+            if must:
+                ok = p.kind == "raise" and p.raised(e, "GuppyError") and getattr(p.value.fields.get("error"), "fields", {}).get("kind") == "UnsupportedError"
+                return z3.BoolVal(bool(ok))
+            return z3.BoolVal(p.kind == "return" and isinstance(p.value, SObj) and p.value.cls.name in ("Dagger", "Control", "Power"))
+        chk.prove_paths(f"_handle_withitem[with {src}]:{'keyword-argument-rejected-as-unsupported' if must else 'modifier-built'}", e.explore(t), post, func=f"{BM}:CFGBuilder._handle_withitem",
+                        replay=(lambda m_: {"script": REPLAY_WITH_KW, "input": {}}) if must else None)
+    chk.use_engine(e)
 
 
 def expression_statements_kept(chk):
